@@ -150,21 +150,35 @@ type evalCtx struct {
 	wire  bool            // canonicalise law-check products through the wire form too (re-evaluation of witnesses)
 
 	fastCount, wireCount, noFast int
+	classCount                   [3]int
+	mergeClass                   int
 }
 
-// finish canonicalises a value. wire=true: through GobEncode and the exported wire structs, cross-checked against
-// the in-memory form; wire=false: in-memory form only (law-check products), every 16th one also through the wire.
-func (x *evalCtx) finish(v resources.CRDTValue, know uint64, wire bool) (*sv, error) {
+const (
+	clsTrace = iota
+	clsGobCopy
+	clsProduct
+)
+
+var sampleEvery = [3]int{4, 8, 64}
+
+// finish canonicalises a value. In full mode (x.wire: re-evaluation and shrinking of witnesses) always through
+// GobEncode and the exported wire structs, cross-checked against the in-memory form. In the bulk law checks the
+// wire path is sampled: every 4th state held by a replica, every 8th gob copy, every 64th law-check product
+// (building gob decoders for tla.Value dominates the cost otherwise); all others use the in-memory form.
+func (x *evalCtx) finish(v resources.CRDTValue, know uint64, class int) (*sv, error) {
 	var c, fc cst
 	var cerr error
 	fastOK := false
 	if err := guard("state inspection", func() { fc, fastOK = x.t.Fast(x.env, v) }); err != nil {
 		return nil, err
 	}
+	wire := x.wire
 	if !wire && fastOK {
-		x.fastCount++
-		if x.fastCount%16 == 0 {
-			wire = true
+		x.classCount[class]++
+		wire = x.classCount[class]%sampleEvery[class] == 0
+		if !wire {
+			x.fastCount++
 		}
 	}
 	if wire || !fastOK {
@@ -197,19 +211,25 @@ func (x *evalCtx) finish(v resources.CRDTValue, know uint64, wire bool) (*sv, er
 	return s, nil
 }
 
+func (x *evalCtx) addTags(t string) {
+	for _, p := range strings.Split(t, "+") {
+		if p != "" {
+			x.tags[p] = true
+		}
+	}
+}
+
 func (x *evalCtx) merge(a, b *sv) (*sv, error) {
 	v, err := doMerge(a.v, b.v)
 	if err != nil {
 		return nil, err
 	}
-	s, err := x.finish(v, a.know|b.know, x.wire)
+	s, err := x.finish(v, a.know|b.know, x.mergeClass)
 	if err != nil {
 		return nil, err
 	}
 	if x.model {
-		if tag := x.t.DiffTag("merge", x.t.ModelMerge(a.c, b.c), s.c); tag != "" {
-			x.tags[tag] = true
-		}
+		x.addTags(x.t.DiffTag("merge", x.t.ModelMerge(a.c, b.c), s.c))
 	}
 	return s, nil
 }
@@ -219,7 +239,7 @@ func (x *evalCtx) gob(a *sv) (*sv, error) {
 	if err != nil {
 		return nil, err
 	}
-	s, err := x.finish(v, a.know, true)
+	s, err := x.finish(v, a.know, clsGobCopy)
 	if err != nil {
 		return nil, err
 	}
@@ -249,16 +269,15 @@ var errTooManyOps = fmt.Errorf("more than 64 update operations")
 
 func (x *evalCtx) execute(c *Case) (*trace, error) {
 	tr := &trace{c: c, msgs: map[int]*sv{}, writers: map[int]bool{}}
-	saved := x.wire
-	x.wire = true // every state a replica holds is canonicalised through the wire form
-	defer func() { x.wire = saved }()
+	x.mergeClass = clsTrace
+	defer func() { x.mergeClass = clsProduct }()
 	cur := make([]*sv, c.Replicas)
 	for r := range cur {
 		var v resources.CRDTValue
 		if err := guard("Init", func() { v = x.t.Init() }); err != nil {
 			return tr, err
 		}
-		s, err := x.finish(v, 0, true)
+		s, err := x.finish(v, 0, clsTrace)
 		if err != nil {
 			return tr, err
 		}
@@ -298,7 +317,7 @@ func (x *evalCtx) execute(c *Case) (*trace, error) {
 				return tr, err
 			}
 			bit := uint64(1) << uint(len(tr.ops))
-			s, err := x.finish(v, old.know|bit, true)
+			s, err := x.finish(v, old.know|bit, clsTrace)
 			if err != nil {
 				return tr, err
 			}
@@ -323,9 +342,7 @@ func (x *evalCtx) execute(c *Case) (*trace, error) {
 			}
 			if x.model {
 				want := x.t.ModelWrite(old.c, fmt.Sprintf("r%d", st.R), st, s.c)
-				if tag := x.t.DiffTag("write", want, s.c); tag != "" {
-					x.tags[tag] = true
-				}
+				x.addTags(x.t.DiffTag("write", want, s.c))
 			}
 			tr.ops = append(tr.ops, op)
 			tr.opStep = append(tr.opStep, i)
@@ -470,7 +487,7 @@ func (x *evalCtx) evalExpr(tr *trace, e *Expr) (*sv, error) {
 			return nil, err
 		}
 		var err error
-		if s, err = x.finish(v, 0, true); err != nil {
+		if s, err = x.finish(v, 0, clsTrace); err != nil {
 			return nil, err
 		}
 	case e.S != nil:
@@ -533,14 +550,14 @@ func setDiff(got, want string) (spurious, missing []string) {
 }
 
 // evaluate runs the case and the instance with the documented-algorithm model switched on.
-func evaluate(c *Case, in *Instance) Outcome {
+func evaluate(c *Case, in *Instance, full bool) Outcome {
 	t := typeByName(c.Type)
 	out := Outcome{Law: in.Law, Level: in.Level}
 	if t == nil {
 		out.Error = "unknown type " + c.Type
 		return out
 	}
-	x := &evalCtx{t: t, env: newEnv(c), model: true, wire: true, tags: map[string]bool{}}
+	x := &evalCtx{t: t, env: newEnv(c), model: true, wire: full, mergeClass: clsProduct, tags: map[string]bool{}}
 	fail := func(err error) Outcome {
 		switch e := err.(type) {
 		case *panicErr:
@@ -550,6 +567,7 @@ func evaluate(c *Case, in *Instance) Outcome {
 		case *gobErr:
 			out.Fails = in.Law == "gob"
 			out.Detail = e.Error()
+			x.tags["gob-transport-failure"] = true
 			if !out.Fails {
 				out.Error = e.Error()
 			}
@@ -608,13 +626,12 @@ func evaluate(c *Case, in *Instance) Outcome {
 			out.Detail = fmt.Sprintf("Read(%s) = %s, declared semantics over the updates it has merged %s gives %s (state %s)", in.A, a.read, opNames(tr, a.know), want, a.cs)
 			if t.Name() != "GCounter" {
 				sp, mi := setDiff(a.read, want)
+				// direction of the smallest differing element (a state can have both kinds at once)
 				switch {
-				case len(sp) > 0 && len(mi) == 0:
+				case len(mi) == 0 || (len(sp) > 0 && sp[0] < mi[0]):
 					out.Dir = "spurious"
-				case len(mi) > 0 && len(sp) == 0:
-					out.Dir = "missing"
 				default:
-					out.Dir = "both"
+					out.Dir = "missing"
 				}
 			}
 		}
@@ -660,7 +677,7 @@ func shrink(c *Case, in *Instance, orig Outcome, budget int) (*Case, *Instance, 
 			return false
 		}
 		used++
-		o := evaluate(nc, ni)
+		o := evaluate(nc, ni, true)
 		if sameFailure(orig, o) {
 			c, in, orig = nc, ni, o
 			return true
@@ -727,7 +744,7 @@ func shrink(c *Case, in *Instance, orig Outcome, budget int) (*Case, *Instance, 
 		try(nc, in)
 	}
 	nc, ni := canonicalise(c, in)
-	if o := evaluate(nc, ni); sameFailure(orig, o) {
+	if o := evaluate(nc, ni, true); sameFailure(orig, o) {
 		c, in, orig = nc, ni, o
 	}
 	return c, in, orig, used
